@@ -171,7 +171,11 @@ def check_set(core, parser, v, ec, rec):
         C = ec['COMPONENT']
         text = structref.msh_line(v, 'ADT_A01', ec) + '\r' + seg + f * row.num + field_text(ec, crow, subs) + \
             '\rZZ1' + f + 'z1' + C + 'z2' + ec['REPETITION'] + 'z3' + '\r' + seg + f * row.num + rep_text(ec, crow, 3, subs)
-        for fg in (True, False):
+        body = text.split('\r', 1)[1]
+        # the same segments under a structure name the version does not know (kept as a flat message): MSH-1/MSH-2 govern
+        unknown = structref.msh_line(v, 'ADT_A01', ec, msh9='XQX^Y77') + '\r' + body
+        for text, fg in ((text, True), (text, False), (unknown, True), (unknown, False)):
+            rec.count('parser_path_texts')
             m3 = parser.parse_message(text, find_groups=fg)
             er3 = m3.to_er7()
             if er3 != text:
